@@ -231,7 +231,7 @@ def order_generic(run, tier, nperm=None, n=None, tag="C13impl", salt=7):
             base = {"solver": sname, "src": "order-generic"}
             if ob.get("error"):
                 if str(ob["error"]).startswith("lowering"): raise ToolError("ImplMC program does not lower: %s: %s" % (job["program"], ob["error"]))
-                run.case([p["id"], o, sname]); run.violation(dict(base, what="abort-or-hang"), {"program": job["program"], "solver": solver, "observed": ob}); continue
+                run.case([p["id"], o, sname]); run.violation(dict(base, what="abort-or-hang", rec_cyclic=(sname != "slg" and cyclic(p["impls"]))), {"program": job["program"], "solver": solver, "observed": ob}); continue
             truth = recs[p["id"]]["truth"]
             for gi, (g, r) in enumerate(zip(goals, ob["results"])):
                 run.case([p["id"], o, gi, sname], nontrivial=(o != sorted(o)))
@@ -352,11 +352,11 @@ def history_generic(run, tier):
             hist = [next(it), next(it)]
             base = {"solver": sname, "src": "history-generic"}
             if fresh.get("error"):
-                run.case([text, sname]); run.violation(dict(base, what="abort-or-hang"), {"program": text, "solver": solver, "observed": fresh}); continue
+                run.case([text, sname]); run.violation(dict(base, what="abort-or-hang", rec_cyclic=(sname != "slg" and frag == "cyclic")), {"program": text, "solver": solver, "observed": fresh}); continue
             for job, o in hist:
                 run.case([text, job["hist"], sname], nontrivial=True)
                 if o.get("error"):
-                    run.violation(dict(base, what="abort-or-hang", op="history"), {"program": text, "solver": solver, "history": [goals[i] for i in job["hist"]], "observed": o}); continue
+                    run.violation(dict(base, what="abort-or-hang", op="history", rec_cyclic=(sname != "slg" and frag == "cyclic")), {"program": text, "solver": solver, "history": [goals[i] for i in job["hist"]], "observed": o}); continue
                 bad = False
                 for pos, (gi, r) in enumerate(zip(job["hist"], o["results"])):
                     f = fresh["results"][gi]
